@@ -15,7 +15,8 @@ LEVEL_TEXT = ("Tables of 4 plain columns plus every single item, every admissibl
               "columns, are rendered from a reference model and parsed by the real library."
               " Also enumerated: inline constraints introduced by CONSTRAINT <name> (REFERENCES / CHECK / PRIMARY KEY / UNIQUE) on the first, an interior and the last column, every ordered pair of table-level items with the first at every interior position (already in the quick tier), and an exactly-once oracle: constraints.references may hold the named table-level foreign keys and nothing else."
               " Wave 2: a fifth column whose name contains two other column names (matching must be by equality), SQL-Server style PRIMARY KEY [CLUSTERED] lists with mixed sort directions, and every case under a second output mode (single items under all 15)."
-              ' Wave 5 / coverage review: CHECK expressions beyond comparisons (IN lists, calls, AND, BETWEEN, comparison AND IN-list), foreign keys without a referenced column list (1 and 2 referencing columns, named or not).')
+              ' Wave 5 / coverage review: CHECK expressions beyond comparisons (IN lists, calls, AND, BETWEEN, comparison AND IN-list), foreign keys without a referenced column list (1 and 2 referencing columns, named or not).'
+              " Defect hunt: '=' comparisons in CHECK (table-level, named, inline, followed by AND), an inline CHECK followed by NOT NULL / DEFAULT; CHECK texts are compared token-wise (blanks between tokens are free, blanks inside a word or operator are not).")
 LEVEL_NOTE = ("Reference semantics are transcribed from the property statement. A foreign key may be reported per column or as a named "
               "constraints.references entry (both documented). Bounds: <=2 items quick / 3 thorough, 4 columns.")
 RULE = ("case = (ordered item tuple, position of the first item among the columns); expected keys/flags/constraints known by "
